@@ -167,7 +167,13 @@ fn opt_vec<T: std::fmt::Debug + Clone + 'static>(p: f64, item: BoxedStrategy<T>,
 }
 
 pub fn arb_case(max_n: usize, engine: Engine) -> BoxedStrategy<Case> {
-    (Just(engine), arb_where())
+    // real proving is expensive: spend it on heights where Orchard exists
+    let place = if engine == Engine::Prove {
+        arb_where().prop_filter("orchard exists", |(l, h)| ref_branch(&LAYOUTS[*l as usize], *h) >= Br::Nu5).boxed()
+    } else {
+        arb_where()
+    };
+    (Just(engine), place)
         .prop_flat_map(move |(engine, (layout, height))| {
             let br = ref_branch(&LAYOUTS[layout as usize], height);
             let orchard_engine = engine != Engine::Build;
@@ -218,7 +224,7 @@ pub fn arb_case(max_n: usize, engine: Engine) -> BoxedStrategy<Case> {
                 (arb_pad(allow_required), arb_pad(allow_required)),
                 arb_propose(br),
                 arb_rule(),
-                arb_bal(),
+                if engine == Engine::Prove { prop_oneof![4 => Just(Bal::Exact), 1 => arb_bal()].boxed() } else { arb_bal() },
                 any::<u32>(),
                 prop_oneof![
                     14 => Just(KeyFault::None),
